@@ -54,7 +54,7 @@ def make_case(unit):
     template = TEMPLATES[i % len(TEMPLATES)]
     j = i // len(TEMPLATES)
     wmode = WEIGHTS[j % len(WEIGHTS)]
-    ins = INS[(j // len(WEIGHTS)) % len(INS)]
+    ins = INS[gen.stratum(ID, i, 1, len(INS))]
     N = g.pick([0, 1, 2, 6, 10, 16, 25, 40, 60, 30])
     facets = cases.random_facets(g, template, N)
     if g.chance(0.45):
